@@ -369,11 +369,13 @@ func (r *Receiver) SegmentHandlerFunc(w http.ResponseWriter, req *http.Request) 
 		if err != nil {
 			log.Error("Failed to write file", "err", err)
 			http.Error(w, "Failed to write file", http.StatusInternalServerError)
+			return
 		}
 		nrWritten += nOut
 		if nOut != n {
 			log.Error("Failed to write all bytes", "nOut", nOut, "n", n)
 			http.Error(w, "Failed to write all bytes", http.StatusInternalServerError)
+			return
 		}
 		if eof {
 			break
